@@ -133,9 +133,13 @@ def install():
 
 
 def uninstall():
+    import sys
     import hopcroftkarp
     if "set" in hopcroftkarp.__dict__:
         del hopcroftkarp.__dict__["set"]
+    m = sys.modules.get("persim.bottleneck")
+    if m is not None and m.__dict__.get("set") is SimSet:
+        del m.__dict__["set"]
 
 
 class order_scope(object):
